@@ -122,7 +122,15 @@ def raw_strategy(tier):
     adds = st.lists(st.tuples(st.just("add_node"), st.sampled_from(store.OP_POOL), store.SEL, st.one_of(st.none(), st.integers(0, 3)), store.META).map(list), min_size=5, max_size=12)
     dels = st.lists(st.tuples(st.just("delete_node"), store.SEL).map(list), min_size=2, max_size=5)
     holes = st.tuples(adds, dels).map(lambda t: {"root": "dfg", "steps": t[0] + t[1]})
-    return st.fixed_dictionaries({"a": st.one_of(hist(12), reuse, holes, holes), "b": hist(16 if tier == "quick" else 25, 5).filter(parent_first), "parent": st.integers(0, 20)})
+    # an inserted HUGR whose root has children in an order far from index order: siblings added,
+    # several of them deleted, as many added again (freed indices are reused most recent first)
+    add0 = st.tuples(st.just("add_node"), st.sampled_from(store.OP_POOL), st.just(0), st.one_of(st.none(), st.integers(0, 3)), store.META).map(list)
+    bursts = st.tuples(st.lists(add0, min_size=4, max_size=8), st.lists(st.tuples(st.just("delete_node"), store.SEL).map(list), min_size=3, max_size=5), st.lists(add0, min_size=3, max_size=5), st.lists(store.step_strategy(False), max_size=6)).map(
+        lambda t: {"root": "dfg", "steps": t[0] + t[1] + t[2] + t[3]}
+    )
+    dense = store.dense_history_strategy(20)  # parallel / fan-in links on few ports, then deletions
+    b = st.one_of(hist(16 if tier == "quick" else 25, 5), hist(16 if tier == "quick" else 25, 5), bursts, dense)
+    return st.fixed_dictionaries({"a": st.one_of(hist(12), reuse, holes, dense, dense), "b": b.filter(parent_first), "parent": st.integers(0, 20)})
 
 
 # ------------------------------------------------------------------ builder wrappers
@@ -236,6 +244,6 @@ wrapper_strategy = st.fixed_dictionaries(
 )
 
 SUBS = [
-    Sub("raw", check_raw, strategy=raw_strategy, nontrivial=nt_raw, classes=lambda c: sorted(b_flags(c)[0]), n_quick=1200, n_thorough=4000),
+    Sub("raw", check_raw, strategy=raw_strategy, nontrivial=nt_raw, classes=lambda c: sorted(b_flags(c)[0]), n_quick=1600, n_thorough=4000),
     Sub("wrappers", check_wrapper, strategy=lambda tier: wrapper_strategy, nontrivial=lambda c: len(c["row"]) >= 1, classes=lambda c: [c["kind"]], n_quick=400, n_thorough=1500),
 ]
